@@ -353,4 +353,13 @@ def main(argv):
             return 1
         print("replay: obligation %s is %s on the current tree" % (want.get("key"), "discharged" if hits else "absent"))
         return 0
+    try:
+        with open(os.path.join(core.VERIF, "MANIFEST.json")) as f:
+            for c in json.load(f)["checks"]:
+                if c["property_id"] == prop:
+                    expl = "%s | rule groups run: %s | %s | %s" % (c["level_claimed"]["text"], expl, c["level_note"],
+                                                                  "deciding step: queries over facts extracted from /repo's current working tree by "
+                                                                  "`cargo +nightly check` with the rustc_private driver (no code of /repo is executed)")
+    except Exception:
+        pass
     return engine.finish(ctx, t0, expl, ASSUME, TRUSTED, seed=seed)
